@@ -16,8 +16,9 @@ EXPLANATION = (
     "migrations; (R3) FilterKind's Display and FromStr use the same tag set and the same tag<->variant pairing, and the "
     'Display -> FromStr round trip is evaluated on concrete sample filters (payloads containing the separator, non-UTF-8 '
     "payloads). (R4) the API handlers for setting / reading the policy evaluated: the request's own document and policy are"
-    ' forwarded, the stored policy is returned. NOT decided: text round trip for all byte strings (hex/utf8 codecs '
-    'trusted).'
+    ' forwarded, the stored policy is returned. (R5) the file-format migration that runs on open for stores written by '
+    'iroh-docs 0.94..=0.98 (migrate_redb_v2_tuples::run), evaluated on an old file holding one row per table, carries the '
+    'download policies. NOT decided: text round trip for all byte strings (hex/utf8 codecs trusted).'
 )
 ASSUMPTIONS = ["postcard encode/decode are inverse (trusted)", "redb tables are identified by their key/value types"]
 
@@ -261,8 +262,16 @@ def r4(ctx):
     ctx.floor("C15.R4", 4)
 
 
+def r5(ctx):
+    """"returned unchanged ... after reopening the store": the file-format migration that runs on open carries the policies"""
+    from . import redbmig
+    redbmig.check(ctx, "C15.R5", only={"download-policy-1"})
+    ctx.floor("C15.R5", 1)
+
+
 def run(ctx):
     ctx.run_rule("C15.R1", r1)
     ctx.run_rule("C15.R2", r2)
     ctx.run_rule("C15.R3", r3)
     ctx.run_rule("C15.R4", r4)
+    ctx.run_rule("C15.R5", r5)
